@@ -520,3 +520,18 @@ func checkTree(tree []spTreeNode, evs []spEvent, hasRoot bool) string {
 	}
 	return ""
 }
+
+// spErrOffset returns the offset of a SyntaxError returned by one of the shipped parsers.
+func spErrOffset(err error) (int, bool) {
+	switch e := err.(type) {
+	case tm.SyntaxError:
+		return e.Offset, true
+	case js.SyntaxError:
+		return e.Offset, true
+	case ptest.SyntaxError:
+		return e.Offset, true
+	case json.SyntaxError:
+		return e.Offset, true
+	}
+	return 0, false
+}
